@@ -115,6 +115,49 @@ def run(chk, ctx):
                         and n.value.id == name:
                     chk.functions.add(f"{rel[:-3]}.{q}.{inner.name}")
                     key_rule(chk, rel, f"{q}.{inner.name}", n, inner, name, "closure-level")
+    # class-level mutable attributes mutated through the instance
+    for rel, c in repo.all_classes():
+        shared_attrs = {}
+        for n in c.body:
+            if isinstance(n, ast.Assign) and len(n.targets) == 1 and isinstance(n.targets[0], ast.Name):
+                v = n.value
+                if isinstance(v, (ast.Dict, ast.List, ast.Set)) or (
+                        isinstance(v, ast.Call) and getattr(v.func, "id", None) in ("dict", "list", "set")):
+                    shared_attrs[n.targets[0].id] = n
+        for name, node in shared_attrs.items():
+            rebound = False
+            for _, cc in repo.mro(c.name):
+                for f in cc.body:
+                    if isinstance(f, ast.FunctionDef) and f.name == "__init__" and name in attr_stores(f):
+                        rebound = True
+            muts = []
+            for f in c.body:
+                if isinstance(f, ast.FunctionDef):
+                    aliases = {a.targets[0].id for a in ast.walk(f) if isinstance(a, ast.Assign) and len(a.targets) == 1
+                               and isinstance(a.targets[0], ast.Name) and isinstance(a.value, ast.Attribute)
+                               and a.value.attr == name and isinstance(a.value.value, ast.Name) and a.value.value.id in ("self", "cls")}
+                    for x in ast.walk(f):
+                        if isinstance(x, ast.Call) and isinstance(x.func, ast.Attribute) and x.func.attr in MUTATORS and \
+                                isinstance(x.func.value, ast.Name) and x.func.value.id in aliases:
+                            muts.append((f.name, x))
+                        if isinstance(x, ast.Subscript) and isinstance(x.ctx, (ast.Store, ast.Del)) and \
+                                isinstance(x.value, ast.Name) and x.value.id in aliases:
+                            muts.append((f.name, x))
+                        if isinstance(x, ast.Call) and isinstance(x.func, ast.Attribute) and x.func.attr in MUTATORS and \
+                                isinstance(x.func.value, ast.Attribute) and x.func.value.attr == name:
+                            muts.append((f.name, x))
+                        if isinstance(x, ast.Subscript) and isinstance(x.ctx, (ast.Store, ast.Del)) and \
+                                isinstance(x.value, ast.Attribute) and x.value.attr == name:
+                            muts.append((f.name, x))
+            cons = f"{rel[:-3].replace('/', '.')}.{c.name}.{name}#class-level"
+            if muts and not rebound:
+                chk.decide("C15.OWN", cons, False,
+                           f"{c.name}.{name} is a mutable object created once in the class body and mutated by {sorted({m for m, _ in muts})} "
+                           "through the instance: every object of the class shares it, so a stream depends on other schedules",
+                           rel=rel, node=node)
+            else:
+                chk.decide("C15.OWN", cons, True, f"class-level {name} is " + ("re-bound per instance" if rebound else "never mutated"),
+                           rel=rel, node=node, nontrivial=False)
     # ---------------- PURE: memoised functions
     memo = [(rel, q, f) for rel, q, f in all_fns if set(deco_names(f)) & MEMO_DECOS]
     bnames = set(dir(builtins))
